@@ -41,7 +41,13 @@ pub struct Case {
 }
 
 fn uri(k: u8) -> String {
-    format!("file:///doc{}.bas", k)
+    // documents 3.. share their *path* with documents 0.. (an editor's diff view opens the base of
+    // a working copy under another scheme): they are different documents all the same
+    match k {
+        0..=2 => format!("file:///doc{}.bas", k),
+        3..=5 => format!("git:/doc{}.bas?ref=HEAD", k - 3),
+        _ => format!("untitled:/doc{}.bas", k % 3),
+    }
 }
 
 struct Server {
@@ -177,14 +183,53 @@ fn byte_to_utf16(line: &str, byte: usize) -> Option<usize> {
     if byte > line.len() || !line.is_char_boundary(byte) {
         return None;
     }
+    if line.is_ascii() {
+        return Some(byte);
+    }
     Some(utf16_len(&line[..byte]))
+}
+
+/// byte offset -> UTF-16 column for one line, linear to build, O(1) to query
+struct Utf16Map {
+    ascii: bool,
+    len: usize,
+    cols: Vec<usize>,
+}
+
+impl Utf16Map {
+    fn new(line: &str) -> Utf16Map {
+        if line.is_ascii() {
+            return Utf16Map { ascii: true, len: line.len(), cols: vec![] };
+        }
+        let mut cols = vec![usize::MAX; line.len() + 1];
+        let mut col = 0;
+        for (i, c) in line.char_indices() {
+            cols[i] = col;
+            col += c.len_utf16();
+        }
+        cols[line.len()] = col;
+        Utf16Map { ascii: false, len: line.len(), cols }
+    }
+    fn get(&self, byte: usize) -> Option<usize> {
+        if byte > self.len {
+            return None;
+        }
+        if self.ascii {
+            return Some(byte);
+        }
+        match self.cols[byte] {
+            usize::MAX => None,
+            c => Some(c),
+        }
+    }
 }
 
 /// what the analyzer says about `text`, computed in-process on the same tree
 struct Expect {
     /// (severity, message, file line, exact utf16 range if both offsets fall on char boundaries)
     diags: Vec<(u64, String, usize, Option<(usize, usize)>)>,
-    token_lines: usize,
+    /// (line, utf16 start, utf16 length) of every token the analyzer reports, in order
+    tokens: Vec<(usize, usize, usize)>,
 }
 
 fn analyse(text: &str) -> Result<Expect, String> {
@@ -205,10 +250,20 @@ fn analyse(text: &str) -> Result<Expect, String> {
             });
             diags.push((sev, msg, line, exact));
         }
-        Expect {
-            diags,
-            token_lines: a.token_types().len(),
+        let mut tokens = vec![];
+        for (li, line) in a.token_types().iter().enumerate() {
+            let lt = lines.get(li).map(|s| s.as_str()).unwrap_or("");
+            let map = Utf16Map::new(lt);
+            for (_ty, r) in line {
+                if let (Some(s16), Some(e16)) = (map.get(r.start), map.get(r.end)) {
+                    tokens.push((li, s16, e16 - s16));
+                } else {
+                    // a range that splits a character has no exact UTF-16 image: not compared
+                    tokens.push((li, usize::MAX, usize::MAX));
+                }
+            }
         }
+        Expect { diags, tokens }
     })
 }
 
@@ -319,6 +374,35 @@ fn check_tokens(text: &str, resp: &Value, legend: usize, ctx: &mut Ctx) -> Optio
             return v("token-type-outside-legend", format!("{ty}"), format!("token {i} has type {ty}, legend has {legend} entries"));
         }
         prev_end = Some((line, start + len));
+    }
+    // the tokens are those of THIS document: positions equal the analyzer's for the latest text
+    if let Ok(want) = analyse(text) {
+        let got: Vec<(usize, usize, usize)> = {
+            let mut v = vec![];
+            let (mut line, mut start) = (0usize, 0usize);
+            for t in data.chunks(5) {
+                let n = |k: usize| t[k].as_u64().unwrap_or(0) as usize;
+                if n(0) > 0 {
+                    line += n(0);
+                    start = n(1);
+                } else {
+                    start += n(1);
+                }
+                v.push((line, start, n(2)));
+            }
+            v
+        };
+        let same_len = got.len() == want.tokens.len();
+        let mismatch = got.iter().zip(want.tokens.iter()).position(|(g, w)| w.1 != usize::MAX && g != w);
+        if !same_len || mismatch.is_some() {
+            let k = mismatch.unwrap_or(got.len().min(want.tokens.len()));
+            return v(
+                "tokens-differ",
+                format!("server {} analyzer {}", got.len(), want.tokens.len()),
+                format!("semantic tokens are not those of the latest text: token {k}: server {:?} vs analyzer {:?} for {:?}", got.get(k), want.tokens.get(k), brief(text)),
+            );
+        }
+        ctx.count("reach.tokens_compared_exactly");
     }
     if !data.is_empty() {
         ctx.count("reach.tokens_decoded");
@@ -625,7 +709,7 @@ impl Prop for C20 {
     }
 
     fn generate(rng: &mut Rng, _ctx: &mut Ctx) -> Case {
-        let nuri = 1 + rng.below(3) as u8;
+        let nuri = if rng.chance(1, 4) { 4 + rng.below(3) as u8 } else { 1 + rng.below(3) as u8 };
         let mut texts: Vec<String> = (0..nuri).map(|_| initial_text(rng)).collect();
         let n = 1 + rng.usize(40);
         let mut msgs = vec![];
